@@ -14,6 +14,32 @@ from .spec import SymSpec, decode_model
 from .contract_base import Contract
 
 
+class EngineCrash(EngineAbort):
+    """the verifier itself failed while executing a path (z3 sort error, bug in the NumPy model, ...)"""
+
+
+# exception types the NumPy / builtin model raises ON PURPOSE, as NumPy and Python do
+_MODELLED = (IndexError, ValueError, TypeError, KeyError, AttributeError, ZeroDivisionError, AssertionError, NotImplementedError)
+
+
+def _reject_engine_exception(e):
+    """Decide whether `e` is behaviour of the code under verification.  It is, when it was raised by repository
+    code (innermost frame under the repo) or deliberately by the model as one of the exception types NumPy/Python
+    raise.  Anything else whose innermost frame is inside dverif or z3 -- Z3Exception, RecursionError, a bug in the
+    model -- is a crash of the verifier: reported as ENGINE-ERROR (exit 3), never as an outcome or a violation."""
+    import os
+    tb = e.__traceback__
+    last = None
+    while tb is not None:
+        last = tb
+        tb = tb.tb_next
+    fname = os.path.abspath(last.tb_frame.f_code.co_filename) if last is not None else ""
+    here = os.path.dirname(os.path.abspath(__file__))
+    in_engine = fname.startswith(here + os.sep) or (os.sep + "z3" + os.sep) in fname
+    if isinstance(e, z3.Z3Exception) or isinstance(e, RecursionError) or (in_engine and not isinstance(e, _MODELLED)):
+        raise EngineCrash("%s: %s  [at %s:%d]" % (type(e).__name__, e, fname, last.tb_lineno if last else -1)) from e
+
+
 def _run_path(contract, case, schedule, lengths, budget, want_canaries=False):
     c = Ctx(schedule, prove_timeout_ms=budget)
     set_ctx(c)
@@ -32,8 +58,9 @@ def _run_path(contract, case, schedule, lengths, budget, want_canaries=False):
                 outcome = ("return", result)
             except EngineAbort:
                 raise
-            except Exception as e:          # the function under verification raised
-                outcome = ("raise", type(e), e)
+            except Exception as e:
+                _reject_engine_exception(e)  # a crash of the verifier must never be read as behaviour of the code
+                outcome = ("raise", type(e), e)     # the function under verification raised
             rz = contract.raises(S, case, env)
             if outcome[0] == "return":
                 for E, cond in rz.items():
@@ -44,7 +71,9 @@ def _run_path(contract, case, schedule, lengths, budget, want_canaries=False):
                     if lengths is None:
                         for h in clause[2:]:
                             c.prove_hint(h() if callable(h) else h)
-                    c.prove("post." + nm, f)
+                    ok = c.prove("post." + nm, f)
+                    if ok and contract.chain_post and lengths is None:
+                        c.add(sym.to_z3(f))
                 if want_canaries:
                     for nm, f in contract.canaries(S, case, env, outcome[1]):
                         c.prove("canary." + nm, f)
@@ -74,6 +103,10 @@ def _run_path(contract, case, schedule, lengths, budget, want_canaries=False):
         except NeedsContract as e:
             rec["outcome"] = "needs-contract"
             rec["reason"] = str(e)
+        except EngineCrash as e:
+            rec["outcome"] = "engine-crash"
+            rec["reason"] = str(e)
+            rec["trace"] = "".join(traceback.format_tb(e.__cause__.__traceback__)[-5:]) if e.__cause__ else ""
         finally:
             for stub in contract.uses:
                 stub.uninstall()
@@ -121,7 +154,7 @@ def check_case(contract, case, tier="quick"):
         summary["lib"].update(p.get("lib", []))
         summary["solver_s"] += p.get("solver_s", 0)
         pr = {"outcome": p["outcome"], "schedule": p.get("schedule"), "n_obligations": len(p["obligations"])}
-        if p["outcome"] in ("out-of-subset", "needs-contract", "path-limit"):
+        if p["outcome"] in ("out-of-subset", "needs-contract", "path-limit", "engine-crash"):
             summary["generation_errors"].append({"outcome": p["outcome"], "reason": p.get("reason"), "trace": p.get("trace")})
         if p.get("feasible") == "unsat":
             summary["generation_errors"].append({"outcome": "vacuous-path", "reason": "path condition unsatisfiable at exit"})
@@ -166,7 +199,7 @@ def check_case(contract, case, tier="quick"):
                     cex[nm] = {"inputs": decode_model(p["_S"], ob["_model"]), "lengths": lengths,
                                "path": p["outcome"], "goal": ob.get("goal"), "detail": ob.get("detail"),
                                "decisions": p.get("decisions")}
-        if not want - set(cex) and sat_paths and bounded_runs >= min(len(combos), 8) and all(v["refuted"] for v in canary.values()):
+        if not want - set(cex) and returned and bounded_runs >= min(len(combos), 3) and all(v["refuted"] for v in canary.values()):
             break
     summary["bounded"] = {"N": N, "length_names": names, "runs": bounded_runs, "sat_paths": sat_paths,
                           "returning_paths": returned}
